@@ -1,4 +1,4 @@
-import JominiModel.Model.Date
+import JominiModel.Proofs.Date
 import JominiModel.Generated.Tables
 /-
 C13 — Date codecs are mutually inverse and date arithmetic is consistent.
@@ -15,5 +15,101 @@ theorem C13_tables :
     Tables.dateMonthStart.map (fun (n : Nat) => some ((n : Int) - 1))
       = (List.range 12).map (fun m => julianOrdinalDay (m + 1)) := by
   decide
+
+/-! ### binary codec -/
+
+/-- **to_binary ∘ from_binary, Date.**  Every date the constructor makes, from year −5000 on,
+encodes to an `i32` that decodes to the same date. -/
+theorem C13_bin_roundtrip_date (y : Int) (m d : Nat) (x : Date.Date) (hy : inI16 y = true)
+    (h5000 : -5000 ≤ y) (hx : Date.fromYmdOpt y m d = .ok x) :
+    ∃ b, x.toBinary = .ok b ∧ inI32 b = true ∧ Date.fromBinary b = .ok x := by
+  rw [Date.fromYmdOpt_eq] at hx
+  by_cases hv : ValidMd m d
+  · rw [if_pos hv] at hx
+    cases hx
+    refine ⟨binOf y m d 0, Date.toBinary_mk y hv, (binOf_fits y 0 hy hv (by omega)).2.2.2, ?_⟩
+    exact Date.fromBinary_of_expanded hv (Expanded.fromBinary_binOf y m d 0 hy h5000 hv (by omega))
+  · rw [if_neg hv] at hx; cases hx
+
+example : Date.fromYmdOpt 1444 11 11 = .ok (mkDate 1444 11 11) := by decide
+
+/-- **to_binary ∘ from_binary, DateHour** (hours 1–24). -/
+theorem C13_bin_roundtrip_datehour (y : Int) (m d h : Nat) (x : DateHour) (hy : inI16 y = true)
+    (h5000 : -5000 ≤ y) (hx : DateHour.fromYmdhOpt y m d h = .ok x) :
+    ∃ b, x.toBinary = .ok b ∧ inI32 b = true ∧ DateHour.fromBinary b = .ok x := by
+  rw [DateHour.fromYmdhOpt_eq] at hx
+  by_cases hv : ValidMd m d ∧ ValidHour h
+  · rw [if_pos hv] at hx
+    cases hx
+    have hh : h - 1 < 24 := by have := hv.2; unfold ValidHour at this; omega
+    refine ⟨binOf y m d (h - 1), DateHour.toBinary_mk y hv.1 hv.2, (binOf_fits y (h - 1) hy hv.1 hh).2.2.2, ?_⟩
+    have := DateHour.fromBinary_of_expanded hv.1 hh (Expanded.fromBinary_binOf y m d (h - 1) hy h5000 hv.1 hh)
+    have e : h - 1 + 1 = h := by have := hv.2; unfold ValidHour at this; omega
+    rwa [e] at this
+  · rw [if_neg hv] at hx; cases hx
+
+example : DateHour.fromYmdhOpt 1936 1 1 24 = .ok (mkDateHour 1936 1 1 24) := by decide
+
+/-- the bound `year ≥ −5000` is necessary: 2 January −5001 encodes to −8736, which is refused. -/
+theorem C13_bin_roundtrip_needs_year_bound :
+    (mkDate (-5001) 1 2).toBinary = .ok (-8736) ∧ Date.fromBinary (-8736) = .err := by
+  decide
+
+/-- **from_binary re-encodes, DateHour**: whatever `DateHour::from_binary` accepts encodes back to
+the same number (for every integer, in particular the whole `i32` range). -/
+theorem C13_from_binary_reencode_datehour (s : Int) (x : DateHour)
+    (h : DateHour.fromBinary s = .ok x) : x.toBinary = .ok s := by
+  rcases Expanded.fromBinary_cases s with he | ⟨y, m, d, h0, hv, hh, _, hb, _, he⟩
+  · simp [DateHour.fromBinary, he] at h
+  · rw [DateHour.fromBinary_of_expanded hv hh he] at h
+    cases h
+    rw [DateHour.toBinary_mk y hv (by unfold ValidHour; omega)]
+    simp only [Nat.add_sub_cancel, hb]
+
+/-- **from_binary re-encodes, Date**: the day is kept, the hour is dropped
+(`s − s % 24`, Rust remainder). -/
+theorem C13_from_binary_reencode_date (s : Int) (x : Date.Date)
+    (h : Date.fromBinary s = .ok x) : x.toBinary = .ok (s - s.tmod 24) := by
+  rcases Expanded.fromBinary_cases s with he | ⟨y, m, d, h0, hv, hh, _, hb, hm, he⟩
+  · simp [Date.fromBinary, he] at h
+  · rw [Date.fromBinary_of_expanded hv he] at h
+    cases h
+    rw [Date.toBinary_mk y hv]
+    congr 1
+    rw [← hm, ← hb]
+    simp only [binOf]
+    omega
+
+example : Date.fromBinary 60759371 = .ok (mkDate 1936 1 1) ∧ (60759371 : Int).tmod 24 = 11 := by decide
+
+/-- **no panic, no overflow over the whole `i32` range** (indeed for every integer):
+`from_binary` of all three types never reaches `unreachable!()` / an overflowing `hour += 1`;
+whatever is accepted has an `i16` year, a calendar day and an hour below 24, and the casts
+`hour as u8`, `day as u8` lose nothing (the result *is* the calendar day whose binary value is `s`). -/
+theorem C13_no_overflow_from_binary (s : Int) :
+    Date.fromBinary s ≠ .panic ∧ DateHour.fromBinary s ≠ .panic ∧ RawDate.fromBinary s ≠ .panic ∧
+    (∀ e, Expanded.fromBinary s = .ok e →
+      inI16 e.year = true ∧ ValidMd e.month e.day ∧ e.hour < 24 ∧ binOf e.year e.month e.day e.hour = s) := by
+  rcases Expanded.fromBinary_cases s with he | ⟨y, m, d, h0, hv, hh, hy, hb, _, he⟩
+  · refine ⟨?_, ?_, ?_, ?_⟩ <;> simp [Date.fromBinary, DateHour.fromBinary, RawDate.fromBinary, he]
+  · refine ⟨?_, ?_, ?_, ?_⟩
+    · rw [Date.fromBinary_of_expanded hv he]; simp
+    · rw [DateHour.fromBinary_of_expanded hv hh he]; simp
+    · have hr : ValidRaw m d h0 := by
+        have := validMd_lt hv
+        unfold ValidMd at hv; unfold ValidRaw; omega
+      simp [RawDate.fromBinary, he, RawDate.fromExpanded, RawDate.fromYmdhOpt_eq, hr]
+    · intro e h
+      rw [he] at h
+      cases h
+      exact ⟨hy, hv, hh, hb⟩
+
+/-- **no overflow in `to_binary`**: for an `i16` year, a calendar day and an hour 1–24 every
+intermediate of date.rs:1143-1147 fits an `i32`. -/
+theorem C13_no_overflow_to_binary (y : Int) (m d h0 : Nat) (hy : inI16 y = true) (hv : ValidMd m d)
+    (hh : h0 < 24) :
+    inI32 ((y + 5000) * 365) = true ∧ inI32 ((y + 5000) * 365 + ordinal m d) = true ∧
+    inI32 (((y + 5000) * 365 + ordinal m d) * 24) = true ∧ inI32 (binOf y m d h0) = true :=
+  binOf_fits y h0 hy hv hh
 
 end Jomini.Props.C13
